@@ -42,7 +42,11 @@ func c08Cases(c *core.Ctx) []c08Case {
 	layoutDefects := []string{"layout-signed-by-wrong-key", "expired", "rule-violation", "failing-inspection", "threshold-not-met"}
 	for _, dsse := range []bool{false, true} {
 		for _, runDir := range []bool{false, true} {
-			for _, depth := range []int{2, 3} {
+			depths := []int{2, 3}
+			if !c.Quick() {
+				depths = []int{2, 3, 4}
+			}
+			for _, depth := range depths {
 				out = append(out, c08Case{Depth: depth, Defect: "none", Flavour: "summary", DSSE: dsse, RunDir: runDir, wantOK: true})
 				out = append(out, c08Case{Depth: depth, Defect: "none", Flavour: "inner", DSSE: dsse, RunDir: runDir})
 				for level := 0; level < depth; level++ {
@@ -124,7 +128,9 @@ func runC08(c *core.Ctx) {
 				}
 				levels[l] = nst
 			}
-			outsider := fast[len(fast)-1]
+			// keys that belong to no level of the nesting
+			outsider := gen.ByKind(pool, "rsa2048")[0]
+			extraFn := gen.ByKind(pool, "rsa2048")[1]
 			// parent rule flavour (at the root, about its sublayout)
 			if k.Flavour == "inner" {
 				levels[0].SubRules = [][]string{{"REQUIRE", "bin"}, {"ALLOW", "*"}}
@@ -148,14 +154,14 @@ func runC08(c *core.Ctx) {
 			}
 			switch k.Special {
 			case "plain+sublayout":
-				levels[0].ExtraPlain, levels[0].ExtraKey = true, fast[len(fast)-2]
+				levels[0].ExtraPlain, levels[0].ExtraKey = true, extraFn
 			case "surplus-sublayout":
 				// threshold 1, but two authorized functionaries hand in evidence: an honest plain link
 				// and a sublayout. Every authorized, validly signed piece of evidence is followed.
-				levels[0].ExtraPlain, levels[0].ExtraKey, levels[0].SubThresh = true, fast[len(fast)-2], 1
+				levels[0].ExtraPlain, levels[0].ExtraKey, levels[0].SubThresh = true, extraFn, 1
 			case "twin-sublayouts":
 				p := levels[k.Depth-2]
-				p.TwinSub, p.ExtraKey = true, fast[len(fast)-2]
+				p.TwinSub, p.ExtraKey = true, extraFn
 				if k.Defect == "missing-link-in-one-twin" {
 					p.TwinSkip = map[string]bool{k.Step: true}
 				}
@@ -271,7 +277,7 @@ func init() {
 	core.Register(&core.Property{
 		ID:    "C08",
 		Level: "exploration",
-		Rule: "nestings of 2 and 3 layouts built bottom-up (each layout: steps prep / sub / final, step sub delegated to a sublayout signed by the functionary's key, links in <step>.<keyid8>/, one inspection with a marker per level); one defect from {sublayout signed by a wrong key, expired, rule violation, failing inspection, threshold not met, missing link, link signed by an unauthorized key, tampered link} at every level x every step; parent rules of the 'true summary' flavour (must hold) and of the 'inner artifact' flavour (must fail); a sublayout offered by an unauthorized functionary next to honest evidence (must not be followed: no sublayout_enter, no marker); threshold-2 step with one plain link + one sublayout (agreeing / disagreeing); threshold-1 step with an honest plain link plus a (sound / expired / incomplete) sublayout from a second authorized functionary; threshold-2 step with the same sublayout from two functionaries, a link missing in one directory only (repeated for map order); x 2 wrappers x 2 entry points. Oracle: ground truth by construction + markers + sublayout_enter events + trace automaton. " +
+		Rule: "nestings of 2 and 3 (thorough: also 4) layouts built bottom-up (each layout: steps prep / sub / final, step sub delegated to a sublayout signed by the functionary's key, links in <step>.<keyid8>/, one inspection with a marker per level); one defect from {sublayout signed by a wrong key, expired, rule violation, failing inspection, threshold not met, missing link, link signed by an unauthorized key, tampered link} at every level x every step; parent rules of the 'true summary' flavour (must hold) and of the 'inner artifact' flavour (must fail); a sublayout offered by an unauthorized functionary next to honest evidence (must not be followed: no sublayout_enter, no marker); threshold-2 step with one plain link + one sublayout (agreeing / disagreeing); threshold-1 step with an honest plain link plus a (sound / expired / incomplete) sublayout from a second authorized functionary; threshold-2 step with the same sublayout from two functionaries, a link missing in one directory only (repeated for map order); x 2 wrappers x 2 entry points. Oracle: ground truth by construction + markers + sublayout_enter events + trace automaton. " +
 			"non-trivial = at least one sublayout entered or deliberately not entered; distinct = (depth, defect, level, step, flavour, special, wrapper, entry point)",
 		Assumptions: []string{"sublayouts are signed with keys (the library looks the key up in the parent's keys section); certificate-authorized sublayout signers are not exercised"},
 		Workers:     func(string) int { return 16 },
